@@ -100,7 +100,7 @@ def gen_requests(tier, rng):
     # size helpers
     for k in ("u8", "u32", "i32", "f32", "bool", "u64", "i64", "f64", "opt_none", "opt_u32", "opt_box_u64"):
         reqs.append("ws %s" % k)
-    for k in ("bytes", "string", "vec_u8", "vec_u32", "vec_u64", "slice_u8", "slice_u32", "vec_string", "box_string"):
+    for k in ("bytes", "string", "string_u2", "string_u3", "string_u4", "string_mix", "vec_u8", "vec_u32", "vec_u64", "slice_u8", "slice_u32", "vec_string", "box_string"):
         for n in range(0, N + 8):
             reqs.append("ws %s %d" % (k, n))
     return reqs
@@ -154,6 +154,9 @@ def oracle(req):
             return "ok %d" % n
         if k in ("string", "box_string"):
             return "ok %d" % (4 + n + pad(n))
+        if k.startswith("string_"):
+            b = sum(i % 4 + 1 for i in range(n)) if k == "string_mix" else n * int(k[-1])      # UTF-8 bytes, not characters
+            return "ok %d" % (4 + b + pad(b))
         if k.startswith("vec_") or k.startswith("slice_"):
             if k == "vec_string":
                 x = sum(4 + i + pad(i) for i in range(n))
